@@ -587,6 +587,43 @@ class Interp:
         vals, nonempty, _ = self._transfer_stmts(body, pos[0], st, upto=pos[1])
         return self._op_class(body, op, vals)
 
+    def class_at_pathwise(self, body, pos, op, arg_classes=None, limit=512):
+        """like class_at, but evaluated separately on every path from the entry to `pos` of a LOOP-FREE body and joined afterwards: facts that the
+        fixpoint loses at a join (`!(x == 0 && y == 0)`: on each path one of the two is known positive) survive.  None = not applicable
+        (loop, too many paths)."""
+        if body.natural_loops():
+            return None
+        init_vals = {}
+        for l in range(1, body.nargs + 1):
+            ty = body.locals[l]["s"]
+            c = NN if is_unsigned(ty) else T
+            if arg_classes and l in arg_classes and arg_classes[l] not in (None, T):
+                c = arg_classes[l]
+            init_vals[l] = c
+        prev_key = getattr(self, "_cur_key", None)
+        self._cur_key = (body.id, tuple(sorted((arg_classes or {}).items())))
+        out = None
+        seen_any = False
+        budget = [limit]
+        stack = [(0, (init_vals, frozenset()))]
+        try:
+            while stack:
+                budget[0] -= 1
+                if budget[0] < 0:
+                    return None
+                bi, st = stack.pop()
+                if bi == pos[0]:
+                    vals, nonempty, _ = self._transfer_stmts(body, bi, st, upto=pos[1])
+                    out = join(out, self._op_class(body, op, vals)) if seen_any else self._op_class(body, op, vals)
+                    seen_any = True
+                    continue
+                for tgt, est in self._transfer_block(body, bi, (dict(st[0]), st[1]), 0):
+                    if est is not None:
+                        stack.append((tgt, (dict(est[0]), est[1])))
+        finally:
+            self._cur_key = prev_key
+        return out if seen_any else None
+
     def nonempty_at(self, body, pos, local, arg_classes=None):
         res = self.analyse(body, arg_classes)
         if res is None:
